@@ -38,6 +38,7 @@ import (
 	"github.com/jech/storrent/protocol"
 	"github.com/jech/storrent/webseed"
 	rc "github.com/jech/storrent/zzverif/refcodec"
+	"github.com/jech/storrent/zzverif/vmap"
 	"github.com/jech/storrent/zzverif/vsel"
 )
 
@@ -113,6 +114,7 @@ type worldCfg struct {
 	Webseed bool
 	EventCap  int  // capacity of the torrent's event queue (0 = 512 as in the code)
 	Gates     bool // peers can be stepped arm by arm (needs the select rewrite: profile worldsel)
+	MapDesc   bool // the scheduler's map range loops run in descending key order (ascending otherwise; see shim/vmap)
 	AutoDrain bool // deliver torrent events automatically after every stimulus
 	IdleRate  int  // config.IdleRate (0 = idle prefetch off)
 	InfoSize  int  // magnet worlds: size of the generated info dictionary (0 = natural)
@@ -490,6 +492,7 @@ func newWorld(cfg worldCfg) *World {
 	t.Deleted = make(chan struct{})
 	t.rand = rand.New(rand.NewPCG(1, 2))
 	w.t = t
+	vmap.SetDescending(cfg.MapDesc)
 	if cfg.Gates {
 		vsel.SetHook(w.selHook)
 	} else {
